@@ -326,6 +326,15 @@ fn respond(ident: &str, params: &str, frame: Frame) -> Option<R> {
                 .map(|p| {
                     #[cfg(feature = "chrono")]
                     {
+                        // the parsed value is the text the server sent, read as RFC 3339: same instant AND same offset (what the
+                        // server wrote is not normalised away), and text that is not RFC 3339 was not accepted
+                        let dt0 = p.last_modified.chrono_datetime();
+                        match chrono::DateTime::parse_from_rfc3339(p.last_modified.raw()) {
+                            Ok(want) if want == dt0 && want.offset() == dt0.offset() && want.naive_local() == dt0.naive_local() => {}
+                            Ok(want) => return format!("INCONSISTENT Last-Modified_{:?}_was_parsed_as_{}_(offset_{}),_RFC_3339_says_{}_(offset_{})",
+                                                       p.last_modified.raw(), dt0.to_rfc3339(), dt0.offset(), want.to_rfc3339(), want.offset()),
+                            Err(_) => return format!("INCONSISTENT Last-Modified_{:?}_is_not_RFC_3339_but_was_accepted_as_{}", p.last_modified.raw(), dt0.to_rfc3339()),
+                        }
                         let dt = p.last_modified.chrono_datetime();
                         let _ = p.last_modified == dt;
                         let _ = p.last_modified.partial_cmp(&dt);
